@@ -89,10 +89,18 @@ void* b_ptr[VX_BCAP]; uint64_t b_epoch[VX_BCAP]; unsigned b_n; int b_counting;  
 char objs[16];            /* object identities: &objs[k] */
 int disposed[16]; int flips; int flips_at_retire[16]; int retired_in_grace[16];
 static int idx_of(void* p) { for (int k = 0; k < 16; ++k) if (p == (void*)&objs[k]) return k; return -1; }
-int vxb_push(void* p, uint64_t epoch) { if (b_n >= VX_BCAP) return 0; b_ptr[b_n] = p; b_epoch[b_n] = epoch; b_n++; return 1; }
-int vxb_pop(void** p, uint64_t* epoch) { if (!b_n) return 0; *p = b_ptr[0]; *epoch = b_epoch[0]; for (unsigned i = 1; i < VX_BCAP; ++i) if (i < b_n) { b_ptr[i - 1] = b_ptr[i]; b_epoch[i - 1] = b_epoch[i]; } b_n--; return 1; }
+unsigned next_x = 8;      /* objects 8.. are retired by OTHER threads */
+int b_interfere; int pushed_by_others[16];
+uint64_t* w_epoch(void);
+/* other threads retire objects concurrently (the buffer is shared and clear_buffer runs outside the lock): before any buffer access of the
+   code under check they may push up to capacity objects tagged with the current epoch */
+static void others_push(void) {
+    if (!b_interfere) return;
+    for (unsigned i = 0; i < VX_BCAP; ++i) if ((nondet_int() & 1) && b_n < VX_BCAP && next_x < 16) { unsigned x = next_x++; pushed_by_others[x] = 1; flips_at_retire[x] = flips; b_ptr[b_n] = &objs[x]; b_epoch[b_n] = *w_epoch(); b_n++; }
+}
+int vxb_push(void* p, uint64_t epoch) { others_push(); if (b_n >= VX_BCAP) return 0; b_ptr[b_n] = p; b_epoch[b_n] = epoch; b_n++; return 1; }
+int vxb_pop(void** p, uint64_t* epoch) { others_push(); if (!b_n) return 0; *p = b_ptr[0]; *epoch = b_epoch[0]; for (unsigned i = 1; i < VX_BCAP; ++i) if (i < b_n) { b_ptr[i - 1] = b_ptr[i]; b_epoch[i - 1] = b_epoch[i]; } b_n--; return 1; }
 size_t vxb_size(void) { return b_counting ? b_n : 0; }
-unsigned next_x = 8;      /* objects 8.. are retired by OTHER threads during a grace period */
 void vx_flip(void) {
     flips++;
     /* another thread retires an object while this grace period is in progress: it tags it with the CURRENT epoch */
@@ -149,11 +157,14 @@ void h_synchronize(void) {
 void h_clear_buffer(void) {
     b_setup(); unsigned n0 = b_n; uint64_t e = nondet_u64(); __CPROVER_assume(e < *w_epoch());
     flips = 2;      /* called after a grace period */
+    b_interfere = nondet_int() & 1;      /* with and without other threads retiring into the shared buffer meanwhile */
     w_clear_buffer(e);
+    b_interfere = 0;
     for (unsigned k = 0; k < VX_BCAP; ++k) if (k < n0) {
         if (b_epoch_at_setup(k) <= e) __CPROVER_assert(disposed[k] == 1 && in_buffer(&objs[k]) == 0, "C05.clear_buffer: disposes exactly the objects whose epoch is not later than the given one");
-        else __CPROVER_assert(disposed[k] + in_buffer(&objs[k]) == 1, "C05.clear_buffer: younger objects stay in the buffer exactly once (including the re-pushed first one), unless the re-push itself ran a further grace period that disposed them once");
+        else __CPROVER_assert(disposed[k] + in_buffer(&objs[k]) == 1, "C05.clear_buffer: younger objects stay in the buffer exactly once (including the re-pushed first one, also when other threads filled the buffer meanwhile), unless the re-push itself ran a further grace period that disposed them once");
     }
+    for (int k = 8; k < 16; ++k) if (pushed_by_others[k]) __CPROVER_assert(disposed[k] + in_buffer(&objs[k]) == 1, "C05.clear_buffer: an object retired by another thread meanwhile is in the buffer once or was disposed once");
     VX_REACH_GUARD();
 }
 void h_destruct(void) {
